@@ -135,6 +135,51 @@ func typeSwitchOn(f *FuncInfo, pred func(tag ast.Expr) bool) *Table {
 	return nil
 }
 
+// wrapperSwitchOf: the type switch over ywrapper message types that f uses to extract scalar
+// values — in f itself (tag …Message().Interface()), or in a module helper f calls (an extracted
+// "wrapper value" function whose switch tag is its parameter).
+func wrapperSwitchOf(c *Ctx, f *FuncInfo) (*FuncInfo, *Table) {
+	if t := typeSwitchOn(f, tagIsMessageInterface); t != nil {
+		// the tag may also be a local defined as …Message().Interface(); handled below.
+		return f, t
+	}
+	hasWrapperArm := func(t *Table) bool {
+		for _, a := range t.Arms {
+			for _, k := range a.Keys {
+				if strings.Contains(k, "ywrapper.") {
+					return true
+				}
+			}
+		}
+		return false
+	}
+	for _, t := range TypeSwitches(f) {
+		if hasWrapperArm(t) {
+			return f, t
+		}
+	}
+	info := f.Info()
+	var hf *FuncInfo
+	var ht *Table
+	ast.Inspect(f.Decl.Body, func(n ast.Node) bool {
+		call, ok := n.(*ast.CallExpr)
+		if !ok || ht != nil {
+			return true
+		}
+		h := c.funcOfCallee(Callee(info, call))
+		if h == nil || h == f || h.Pkg != f.Pkg {
+			return true
+		}
+		for _, t := range TypeSwitches(h) {
+			if hasWrapperArm(t) {
+				hf, ht = h, t
+			}
+		}
+		return true
+	})
+	return hf, ht
+}
+
 func tagIsMessageInterface(tag ast.Expr) bool {
 	s := types.ExprString(tag)
 	return strings.HasSuffix(s, ".Message().Interface()")
@@ -156,12 +201,12 @@ func ruleProtomapTables(c *Ctx, r *Report) {
 		return
 	}
 	// (1) scalar wrappers.
-	wT := typeSwitchOn(pf, tagIsMessageInterface)
+	wF, wT := wrapperSwitchOf(c, pf)
 	rT := typeSwitchOn(mw, tagIsMessageInterface)
 	if wT == nil || rT == nil {
 		r.Und("protomap:wrapper-tables", c.Pos(pf.Decl.Pos()), "wrapper dispatch of parseField/makeWrapper not recognised")
 	} else {
-		w := wrapperArmValueTypes(pf, wT)
+		w := wrapperArmValueTypes(wF, wT)
 		valObj := paramObj(mw, 2)
 		for _, a := range rT.Arms {
 			if a.Deflt {
@@ -229,8 +274,8 @@ func ruleProtomapTables(c *Ctx, r *Report) {
 		// top level acceptance (outside the per-wrapper switch) and conversions.
 		elemT := typeSwitchOn(ml, tagIsMessageInterface)
 		wElem := map[string]types.Type{}
-		if t := typeSwitchOn(lv, tagIsMessageInterface); t != nil {
-			wElem = wrapperArmValueTypes(lv, t)
+		if lf, t := wrapperSwitchOf(c, lv); t != nil {
+			wElem = wrapperArmValueTypes(lf, t)
 		}
 		if elemT == nil || len(wElem) == 0 {
 			r.Und("leaflist:tables", c.Pos(ml.Decl.Pos()), "leaf-list dispatch not recognised")
